@@ -1,6 +1,7 @@
 package main
 
 import (
+	"os"
 	"strings"
 	"testing"
 )
@@ -185,4 +186,98 @@ func TestSlices(t *testing.T) {
 			t.Logf("generated:\n%s", src)
 		}
 	})
+}
+
+// TestMut pins the third-round translation (mut.go): a pointer parameter as state, declared copies, `x == nil`, early
+// error returns (`Except Unit`), join points, a pointer alias resolved per path, `fallthrough`, a nil dereference as a
+// panic, calls of functions that assign through a parameter, storage-reuse slices.
+func TestMut(t *testing.T) {
+	boardMut := "a b bits cells sum"
+	wl := []fnSpec{
+		{dir: "pos3", file: "pos3.go", recv: "Board", name: "Bump", lean: "bump", round2: true, round3: true,
+			views: map[string]string{"b": "bits cells sum"}, mut: map[string]string{"b": "bits cells sum"}},
+		{dir: "pos3", file: "pos3.go", recv: "Board", name: "Step", lean: "step", round2: true, round3: true, copies: "fresh copyInto",
+			views: map[string]string{"b": "a b bits cells n sum", "next": "isNil"}, mut: map[string]string{"next": boardMut}},
+		{dir: "pos3", file: "pos3.go", name: "grow", lean: "grow", round2: true},
+		{dir: "pos3", file: "pos3.go", recv: "Board", name: "Regroup", lean: "regroup", round2: true, round3: true, reuse: true,
+			views: map[string]string{"b": "bits"}, mut: map[string]string{"b": "grp"}},
+	}
+	withWhitelist(t, []string{""}, wl, func(out map[string]string, errs []error) {
+		for _, e := range errs {
+			t.Errorf("unexpected failure: %v", e)
+		}
+		src := out["Funcs.lean"]
+		if p := os.Getenv("GEN_DUMP"); p != "" {
+			// GEN_DUMP=<file> go test -run TestMut: the emitted text, to be compiled by hand (`lake env lean <file>` after
+			// prefixing `import TakVerif.Generated.FuncsTak` and `open Gen`)
+			os.WriteFile(p, []byte(src), 0o644)
+		}
+		for _, want := range []string{
+			// a method without results: the assigned fields are parameters and the result (sorted by name); Option because of the index
+			"def bump (b_bits : BitVec 64) (b_cells : Array (BitVec 8)) (b_sum : Int) (i : Nat) : Option (BitVec 64 × Array (BitVec 8) × Int) :=",
+			"if !(decide (i < b_cells.size)) then none else\n  let b_cells := b_cells.setIfInBounds i ((b_cells.getD i 0#8) + 1#8)",
+			"let b_bits : BitVec 64 := (b_bits ||| (shl 1#64 (i)))",
+			"some ((b_bits, b_cells, b_sum))",
+			// `(*Board, error)` -> Except Unit; the assignable fields of `next` are not inputs, `next == nil` is
+			"(k : BitVec 8) (i : Nat) (next_isNil : Bool) : Option (Except Unit (BitVec 8 × BitVec 8 × BitVec 64 × Array (BitVec 8) × Int)) :=",
+			// the two declared copies, joined: the continuation is emitted once
+			"let (next_a, next_b, next_bits, next_cells, next_isNil, next_sum) : (BitVec 8 × BitVec 8 × BitVec 64 × Array (BitVec 8) × Bool × Int) :=\n    if next_isNil then\n      let next_a : BitVec 8 := b_a",
+			"let next_sum : Int := next_sum + 1",
+			// a tagged switch with early returns as a join point
+			"match ((\n    if (k == 1#8) then\n      let d : Int := (1 : Int)\n      Except.ok d",
+			"Except.error ((Except.error ()))) : Except (Except Unit (BitVec 8 × BitVec 8 × BitVec 64 × Array (BitVec 8) × Int)) (Int)) with\n  | .error rv_ => some (rv_)\n  | .ok d =>",
+			// fallthrough: the next clause's body is appended; the alias is resolved on every path
+			"let next_bits : BitVec 64 := (next_bits ||| 2#64)\n    if (d == (3 : Int)) then\n      if (next_a == 0#8) then\n        some ((Except.error ()))\n      else\n        let next_a : BitVec 8 := next_a - 1#8",
+			"if (next_b == 0#8) then",
+			// the call of a method that assigns through its receiver: given the current fields, returns the new ones
+			"match (bump next_bits next_cells next_sum i) with\n        | none => none\n        | some (next_bits, next_cells, next_sum) =>\n        some ((Except.ok (next_a, next_b, next_bits, next_cells, next_sum)))",
+			// no case of the second switch taken: `*q` dereferences nil
+			"else\n      none",
+			// storage reuse
+			"def regroup (b_bits : BitVec 64) : Array (BitVec 64) :=\n  let t : Array (BitVec 64) := #[]",
+			"let u : Array (BitVec 64) := #[]",
+		} {
+			if !strings.Contains(src, want) {
+				t.Errorf("generated source lacks:\n%s", want)
+			}
+		}
+		if t.Failed() {
+			t.Logf("generated:\n%s", src)
+		}
+	})
+}
+
+// TestMutRejected: what the third round cannot translate faithfully is refused loudly.
+func TestMutRejected(t *testing.T) {
+	cases := []struct {
+		name, msg string
+		spec      fnSpec
+	}{
+		{"ReadEarly", "before it is initialised", fnSpec{views: map[string]string{"b": "n"}, mut: map[string]string{"out": "n"}}},
+		{"AliasLoop", "given a target inside a loop", fnSpec{views: map[string]string{"b": "n"}, mut: map[string]string{"b": "n"}}},
+		{"AliasOther", "a pointer may only be given the address of an assignable field", fnSpec{views: map[string]string{"b": "n"}, mut: map[string]string{"b": "n"}}},
+		{"MaybeNil", "not statically non-nil", fnSpec{}},
+		{"PokedErr", "not statically non-nil", fnSpec{}},
+		{"WriteUndeclared", "assignment target", fnSpec{views: map[string]string{"b": "n"}, mut: map[string]string{"b": "n"}}},
+		{"CopyMissing", "the source declares no view", fnSpec{copies: "dup", views: map[string]string{"b": "n"}, mut: map[string]string{"out": "n"}, late: map[string]string{"out": "m"}}},
+		{"DerefCond", "under the right operand of && / ||", fnSpec{views: map[string]string{"b": "n"}}},
+		{"ReturnUninit", "is not initialised on this path", fnSpec{views: map[string]string{"b": "n"}, mut: map[string]string{"out": "m n"}}},
+		{"CalleeWrites", "not among the assignable paths", fnSpec{views: map[string]string{"b": "n"}, mut: map[string]string{"b": "n"}}},
+	}
+	for _, c := range cases {
+		sp := c.spec
+		sp.dir, sp.file, sp.name, sp.lean, sp.round2, sp.round3 = "neg", "neg.go", c.name, "f", true, true
+		wl := []fnSpec{
+			{dir: "neg", file: "neg.go", name: "setM", lean: "setM", round2: true, round3: true, views: map[string]string{"t": "n"}, mut: map[string]string{"t": "m"}},
+			sp,
+		}
+		withWhitelist(t, []string{""}, wl, func(out map[string]string, errs []error) {
+			if len(errs) != 1 || !strings.Contains(errs[0].Error(), c.msg) {
+				t.Errorf("%s: expected one failure mentioning %q, got %v", c.name, c.msg, errs)
+			}
+			if _, written := out["Funcs.lean"]; written {
+				t.Errorf("%s: a group with a failed function must not be written", c.name)
+			}
+		})
+	}
 }
